@@ -101,6 +101,7 @@ def run(F, R, ctx):
                        op, bl.get("mac") if bl else ""), vm.loc(), nontrivial=False)
     R.floor("C01.a", "emittable opcodes", len(em), 60)
     digit_tables(F, R, vm, sb)
+    primitive_tables(F, R, vm, sb)
 
 
 def digit_tables(F, R, vm, sb):
@@ -156,3 +157,65 @@ def digit_tables(F, R, vm, sb):
                     R.inst("C01.s", "arm %s pushes %s" % (op, e[4][0]), e[4][0] == "const:" + k,
                            "the interpreter arm for %s pushes the integer %s" % (op, e[4][0][6:]), vm.loc(e[3]), sample=True)
     R.floor("C01.s", "numbered specialisation instances", n, 12)
+
+
+# opcode -> tokens that name the same operation in the compiler's PRIM_* statics and in the interpreter's handler names
+OP_TOKENS = {
+    "CONS": ["cons"], "NEWBOX": ["box"], "UNBOX": ["unbox"], "SETBOX": ["setbox", "set_box"], "CAR": ["car"], "CDR": ["cdr"],
+    "LIST": ["list"], "LISTREF": ["list_ref", "listref"], "VECTORREF": ["vector_ref", "vec_ref"], "NOT": ["not"],
+    "NULL": ["null", "empty"], "ADD": ["plus", "add"], "SUB": ["minus", "sub", "subtract"], "DIV": ["div", "divide"],
+    "MUL": ["star", "mul", "multiply"], "NUMEQUAL": ["num_equal", "number_equality"], "EQUAL": ["equal", "equality"],
+    "EQUAL2": ["equal", "equality"], "LTE": ["lte"], "GTE": ["gte"], "GT": ["gt"], "LT": ["lt"],
+    "UNBOXCALL": ["unbox"], "UNBOXTAIL": ["unbox"],
+}
+
+
+def tok_match(name, toks):
+    n = name.lower()
+    return any(re.search(r"(^|_)%s(_|$)" % re.escape(t), n) for t in toks)
+
+
+def primitive_tables(F, R, vm, sb):
+    R.rule("C01.p", "inlined primitives: in the peephole passes the PRIM_* static tested in an arm names the same operation "
+                    "as the opcode the arm constructs (PRIM_CAR -> CAR, PRIM_LTE -> LTE, …), and the interpreter arm of that "
+                    "opcode calls the handler of the same operation (CAR -> car_handler, LTE -> lte_handler_payload, …)")
+    n = 0
+    for fname in ("convert_call_globals", "inline_num_operations", "unbox_function_call"):
+        fn = F.one(r"^steel::compiler::program::%s$" % fname)
+        dom = fn.dominators()
+        stat = {i: [lib.split_path(e[1])[-1] for e in b["e"] if e[0] in ("staticref", "constref")] for i, b in enumerate(fn.blocks)}
+        for i, b in enumerate(fn.blocks):
+            if b["c"]:
+                continue
+            for e in b["e"]:
+                if e[0] == "agg" and e[1] == "OpCode" and e[2] in OP_TOKENS:
+                    near = None
+                    for d in sorted(dom.get(i, ()), key=lambda x: -len(dom[x])):
+                        if stat[d]:
+                            near = stat[d]
+                            break
+                    if not near:
+                        continue
+                    nm = re.sub(r"^PRIM_|_SYMBOL$", "", near[-1])
+                    n += 1
+                    R.inst("C01.p", "%s / %s -> %s" % (fn.short(), near[-1], e[2]), tok_match(nm, OP_TOKENS[e[2]]),
+                           "%s rewrites a call of %s into OpCode::%s, which the interpreter executes as a different "
+                           "primitive" % (fn.short(), near[-1], e[2]), fn.loc(e[3]), sample=True)
+    m = lib.arm_map(vm, sb)
+    dom = vm.dominators()
+    for op, toks in sorted(OP_TOKENS.items()):
+        t = m.get(op)
+        if t is None or t == m["_"]:
+            continue
+        region = [x for x in lib.arm_reach(vm, sb, t) if t in dom.get(x, ())]
+        cs = sorted(set(lib.split_path(vm.blocks[x]["callee"])[-1] for x in region if vm.blocks[x]["k"] == "call"
+                        and re.match(r"steel::(steel_vm|primitives)::", vm.blocks[x]["callee"])
+                        and "{impl" not in lib.split_path(vm.blocks[x]["callee"])[-2]))
+        cs = [c for c in cs if c not in ("cold", "unlikely", "likely")]
+        if not cs:
+            continue  # implemented inline
+        n += 1
+        R.inst("C01.p", "arm %s calls %s" % (op, ",".join(cs)), any(tok_match(c, toks) for c in cs),
+               "the interpreter arm for %s calls %s, none of which is the %s operation" % (op, cs, "/".join(toks)), vm.loc(),
+               sample=True)
+    R.floor("C01.p", "primitive table instances", n, 30)
